@@ -426,31 +426,97 @@ SPECDIR = os.path.join(V.SPEC, "Format")
 GOLDEN = ["mos-core/test-data/format/valid-unformatted.asm", "mos-core/test-data/format/valid-formatted.asm"]
 
 
-def design_level(rep, tier, prop):
-    """Model-check the formatter machine (MC_Format) and, for C12, the command machine (MC_FormatCmd).
-    Returns the cases TLC printed for replay."""
+# deviations for which Format.tla has a pinned and a repaired reading (constant Devs), and all recorded ones
+DEVS_IN_SPEC = ["OpenBraceGapDropped", "SameLineStatementsGlued", "ElseOnNewLineGainsBlankLine"]
+DESIGN_REFUTED = {"C12": ["OpenBraceGapDropped", "SameLineStatementsGlued"],
+                  "C13": ["ElseOnNewLineGainsBlankLine", "BlockCommentContinuationPadded"]}
+INVARIANTS = ("CommentsKept NoJoin TerminalsKept StepwiseIsFunctional OneStatementPerLine NoTrailingBlanks NoDoubleBlank "
+              "ContinuationVerbatim ElseStaysAttached")
+GRIDS = {"small": ("{2}", "{4}", "{6}", 99), "quick": ("{0, 2}", "{0, 4}", "{0, 6}", 2), "thorough": ("{0, 2, 8}", "{0, 4, 20}", "{0, 6, 30}", 2)}
+
+
+def findings_view():
+    """Rows for C12/C13: the merged file (known_findings.jsonl, or the file named by VERIF_FINDINGS for trial runs) wins,
+    rows of checks/C1x/findings.jsonl that it does not have yet are added."""
+    path = os.environ.get("VERIF_FINDINGS") or os.path.join(V.VERIF, "known_findings.jsonl")
+    rows = []
+    if os.path.exists(path):
+        for line in open(path):
+            line = line.strip()
+            if line and not line.startswith("#"):
+                f = json.loads(line)
+                if f.get("property") in ("C12", "C13"):
+                    rows.append(f)
+    have = {(f["property"], f["deviation"]) for f in rows}
+    for prop in ("C12", "C13"):
+        own = os.path.join(V.VERIF, "checks", prop, "findings.jsonl")
+        if os.path.exists(own):
+            for line in open(own):
+                if line.strip():
+                    f = json.loads(line)
+                    if (f["property"], f["deviation"]) not in have:
+                        rows.append(f)
+    return rows
+
+
+def open_names(rows):
+    """a deviation is pinned in the specification as long as one of its rows (C12 or C13) is open"""
+    return sorted({f["deviation"] for f in rows if f.get("status") == "open"})
+
+
+def tla_set(names):
+    return "{" + ", ".join('"%s"' % n for n in names) + "}"
+
+
+def mc_cfg(name, devs, allowed, grid, invariants):
+    d = V.workdir("fmt-cfg")
+    path = os.path.join(d, name + ".cfg")
+    ind, lm, cm, replay = GRIDS[grid]
+    with open(path, "w") as f:
+        f.write("SPECIFICATION Spec\nCONSTANTS Devs = %s\n  Allowed = %s\n  Indents = %s\n  Margins = %s\n  CodeMargins = %s\n  ReplayIndent = %d\nINVARIANTS %s\n"
+                % (tla_set(devs), tla_set(allowed), ind, lm, cm, replay, invariants))
+    return path
+
+
+def trace_cfg(prop, devs):
+    d = V.workdir("fmt-cfg")
+    path = os.path.join(d, "FormatTrace_%s.cfg" % prop)
+    with open(path, "w") as f:
+        f.write('SPECIFICATION Spec\nCONSTANTS Prop = "%s"\n  Devs = %s\nPOSTCONDITION Consumed\n' % (prop, tla_set(devs)))
+    return path
+
+
+def design_level(rep, tier, prop, opened):
+    """Model-check the formatter machine (MC_Format) under the readings selected by the open findings and, for C12, the
+    command machine (MC_FormatCmd).  Returns the cases TLC printed for replay."""
     mc = os.path.join(SPECDIR, "MC_Format.tla")
-    cfg = os.path.join(SPECDIR, "MC_Format_%s.cfg" % ("quick" if tier == "quick" else "thorough"))
+    devs = [d for d in DEVS_IN_SPEC if d in opened]
+    cfg = mc_cfg("%s-MC_Format-%s" % (prop, tier), devs, opened, "quick" if tier == "quick" else "thorough", INVARIANTS)
     r = V.tlc(mc, cfg=cfg, workers=6, timeout=3000, tag=prop + "-mc", xmx="8g")
     rep.add_tlc(r)
     quiet = "\n".join(l for l in r.out.splitlines() if not l.startswith('<<"CASE"'))
     if r.invariant_violated:
-        rep.violations.append({"why": "design level: an invariant of MC_Format is violated", "replay": {"tlc_output": V.tail(quiet, 80), "cfg": cfg}, "id": "MC_Format"})
+        rep.violations.append({"why": "design level: an invariant of MC_Format is violated", "replay": {"tlc_output": V.tail(quiet, 80), "cfg": open(cfg).read()}, "id": "MC_Format"})
         return []
     if r.rc != 0 or "Error:" in quiet:
         raise V.ToolError("MC_Format failed:\n" + V.tail(quiet, 40))
-    rep.notes.append("MC_Format (%s): %d distinct states, depth %d; CommentsKept, NoJoin, TerminalsKept, StepwiseIsFunctional, NoTrailingBlanks, "
-                     "NoDoubleBlank, ContinuationVerbatim hold with the recorded deviations" % (os.path.basename(cfg), r.distinct, r.depth))
-    # the property as stated (no deviation) must be violated by the recorded defect, and runs must reach the end
-    wit = [("MC_Format_vac.cfg", "no run of the machine reaches its end")]
-    wit.append(("MC_Format_ideal.cfg", "TLC no longer finds the discarded '{' gap with Deviations = {}") if prop == "C12" else
-               ("MC_Format_idem_ideal.cfg", "TLC no longer finds the padded continuation line with the deviation switched off"))
-    for c, msg in wit:
-        rv = V.tlc(mc, cfg=os.path.join(SPECDIR, c), workers=4, timeout=900, tag=prop + "-vac")
+    rep.notes.append("MC_Format (%s grid, pinned readings %s, tolerated deviations %s): %d distinct states, depth %d; %s hold"
+                     % (tier, devs or "none", opened or "none", r.distinct, r.depth, INVARIANTS.replace(" ", ", ")))
+    # runs must reach the end
+    rv = V.tlc(mc, cfg=mc_cfg(prop + "-vac", devs, opened, "small", "NeverDone"), workers=4, timeout=900, tag=prop + "-vac")
+    rep.add_tlc(rv)
+    if not rv.invariant_violated:
+        raise V.ToolError("MC_Format: no run of the machine reaches its end")
+    # every recorded defect of this property, open or repaired: its pinned reading without the tolerance must be refuted
+    for d in DESIGN_REFUTED[prop]:
+        dv = sorted(set(devs) | ({d} if d in DEVS_IN_SPEC else set()))
+        al = [x for x in opened if x != d]
+        rv = V.tlc(mc, cfg=mc_cfg("%s-refute-%s" % (prop, d), dv, al, "small", INVARIANTS), workers=4, timeout=900, tag=prop + "-refute")
         rep.add_tlc(rv)
         if not rv.invariant_violated:
-            raise V.ToolError("MC_Format witness run %s: %s" % (c, msg))
-    rep.notes.append("witness runs: end states are reached; with the deviation switched off TLC reports the recorded defect at design level")
+            raise V.ToolError("MC_Format: the pinned reading of %s is not refuted once the deviation is not tolerated" % d)
+    rep.notes.append("binding runs: end states are reached; the pinned reading of each of %s (open or repaired) is refuted by TLC when it is not tolerated"
+                     % ", ".join(DESIGN_REFUTED[prop]))
     if prop == "C12":
         mcc = os.path.join(SPECDIR, "MC_FormatCmd.tla")
         rc = V.tlc(mcc, cfg=os.path.join(SPECDIR, "MC_FormatCmd.cfg"), workers=2, timeout=600, tag="C12-mccmd")
@@ -596,16 +662,15 @@ def run_mos_format(mos, proj, idx):
 def run(prop, tier):
     """The whole check for prop in {"C12", "C13"}; returns the exit code."""
     rep = V.Report(prop, tier)
-    # findings recorded by this check that the maintainer has not merged into known_findings.jsonl yet
-    own = os.path.join(V.VERIF, "checks", prop, "findings.jsonl")
-    merged = {f.get("deviation"): f for f in V.load_findings() if f.get("property") == prop}
-    for line in open(own):
-        if line.strip():
-            f = json.loads(line)
-            if f["status"] == "open" and f["deviation"] not in merged:
-                rep.open[f["deviation"]] = f
+    # which findings are open decides (a) what is reported as KNOWN-FINDING and (b) which reading of Format.tla runs
+    rows = findings_view()
+    rep.open = {f["deviation"]: f for f in rows if f.get("property") == prop and f.get("status") == "open"}
+    opened = open_names(rows)
+    devs = [d for d in DEVS_IN_SPEC if d in opened]
+    rep.notes.append("open findings (C12+C13): %s; Format.tla runs the pinned reading for %s and the repaired reading for %s"
+                     % (opened or "none", devs or "none", [d for d in DEVS_IN_SPEC if d not in devs] or "none"))
     build_harness(["fmtdrive"])
-    mc_cases = design_level(rep, tier, prop)
+    mc_cases = design_level(rep, tier, prop, opened)
     cases, meta = build_cases(tier, prop, mc_cases)
     V.log("[%s] %d cases (%d generated by TLC)" % (prop, len(cases), sum(1 for m in meta.values() if m["family"] == "tlc")))
     obs = drive(cases, prop + "-drive")
@@ -638,7 +703,7 @@ def run(prop, tier):
     nok = sum(1 for r in recs if r.get("kind") == "fmt" and r["ok"])
     if nok < len(cases) // 2:
         raise V.ToolError("too few generated programs parse (%d of %d): generator or tree broken" % (nok, len(cases)))
-    verdicts, st = V.judge(os.path.join(SPECDIR, "FormatTrace.tla"), recs, cfg=os.path.join(SPECDIR, "FormatTrace_%s.cfg" % prop),
+    verdicts, st = V.judge(os.path.join(SPECDIR, "FormatTrace.tla"), recs, cfg=trace_cfg(prop, devs),
                            tag=prop + "-judge", batch=3000, timeout=3000)
     rep.add_stats(st)
     rep.cov["traces_validated_against_impl"] = nok + ncmd
